@@ -68,13 +68,11 @@ func AddMetricsMetaEntry(entry *structs.MetricsMeta) error {
 		return err
 	}
 
+	// the entry and its newline go out in one write: a crash cannot leave an unterminated line
+	// to which the next entry would be glued
+	rawMeta = append(rawMeta, '\n')
 	if _, err := fd.Write(rawMeta); err != nil {
 		log.Errorf("AddMetricsMetaEntry: failed to write segmeta err=%v filename=%v rawMeta=%v", err, localMetricsMeta, rawMeta)
-		return err
-	}
-
-	if _, err := fd.WriteString("\n"); err != nil {
-		log.Errorf("AddMetricsMetaEntry: failed to write newline filename=%v: err=%v", localMetricsMeta, err)
 		return err
 	}
 	err = fd.Sync()
